@@ -117,6 +117,16 @@ func C16(r *drv.Run) {
 			}
 		}
 		src := "find all " + cs.lit
+		// the lexer reads through a 4096-byte buffer: in a third of the cases the literal is pushed to
+		// straddle a multiple of 4096 by a leading comment
+		if i%3 == 1 {
+			target := 4096*(1+rng.Intn(2)) - rng.Intn(len(cs.lit)+2)
+			pad := target - len("--()--\nfind all ")
+			if pad > 0 {
+				src = "--(" + strings.Repeat("p", pad) + ")--\nfind all " + cs.lit
+				r.Count("sources_straddling_4096", 1)
+			}
+		}
 		c := wire.Case{Op: "run", Src: []byte(src), Texts: texts, StepBudget: 100000}
 		return &drv.Item{Case: c, Check: func(res *wire.Result) {
 			if crashOrGuard(r, res, &c, src, false) {
